@@ -13,15 +13,16 @@ import (
 
 // ---------------------------------------------------------------- implementation side
 
-type sImpl struct {
+type sImpl[T any] struct {
+	c   codec[T]
 	big bool
-	l   *listz.SList[int]
-	l2  *listz.SList[int] // second list sharing the nodes; `flip` exchanges l and l2
-	h   []*listz.SNode[int]
-	ids map[*listz.SNode[int]]int
+	l   *listz.SList[T]
+	l2  *listz.SList[T] // second list sharing the nodes; `flip` exchanges l and l2
+	h   []*listz.SNode[T]
+	ids map[*listz.SNode[T]]int
 }
 
-func (d *sImpl) reg(e *listz.SNode[int]) {
+func (d *sImpl[T]) reg(e *listz.SNode[T]) {
 	if e == nil {
 		return
 	}
@@ -32,7 +33,7 @@ func (d *sImpl) reg(e *listz.SNode[int]) {
 	d.h = append(d.h, e)
 }
 
-func (d *sImpl) show(e *listz.SNode[int]) string {
+func (d *sImpl[T]) show(e *listz.SNode[T]) string {
 	if e == nil {
 		return "nil"
 	}
@@ -44,7 +45,7 @@ func (d *sImpl) show(e *listz.SNode[int]) string {
 
 // discover registers nodes allocated inside the list (PushFront/PushBack/InsertAt do not
 // return them): at most one per operation, found by walking Front/Next.
-func (d *sImpl) discover() {
+func (d *sImpl[T]) discover() {
 	n, cap := 0, walkCap
 	if d.big {
 		cap = bigCap
@@ -55,7 +56,7 @@ func (d *sImpl) discover() {
 	}
 }
 
-func (d *sImpl) dumpBig() string {
+func (d *sImpl[T]) dumpBig() string {
 	var ids, vs, v2 digest
 	for e := d.l.Front(); e != nil; e = e.Next() {
 		if ids.n == bigCap {
@@ -67,14 +68,14 @@ func (d *sImpl) dumpBig() string {
 			id = -5
 		}
 		ids.add(id)
-		vs.add(e.Value)
+		vs.add(d.c.dec(e.Value))
 	}
 	for x := range d.l.All() {
 		if v2.n == bigCap {
 			v2.cut = true
 			break
 		}
-		v2.add(x)
+		v2.add(d.c.dec(x))
 	}
 	v := vs.String()
 	if v2.String() != v {
@@ -88,7 +89,7 @@ func (d *sImpl) dumpBig() string {
 		cnt, e := 0, d.l.Front()
 		ok := true
 		for x := range d.l.All() {
-			if e == nil || x != e.Value {
+			if e == nil || d.c.dec(x) != d.c.dec(e.Value) {
 				ok = false
 				break
 			}
@@ -106,7 +107,7 @@ func (d *sImpl) dumpBig() string {
 	return fmt.Sprintf("%d h=%s t=%s n~%s v~%s", d.l.Len(), d.show(d.l.Front()), d.show(d.l.Back()), ids.String(), v)
 }
 
-func (d *sImpl) dump() string {
+func (d *sImpl[T]) dump() string {
 	if d.big {
 		return d.dumpBig()
 	}
@@ -126,29 +127,48 @@ func (d *sImpl) dump() string {
 			vs = append(vs, "!")
 			break
 		}
-		vs = append(vs, strconv.Itoa(x))
+		vs = append(vs, strconv.Itoa(d.c.dec(x)))
 		n++
 	}
-	if !breakOK(d.l.All(), vs) {
+	if !breakOK(mapSeq(d.l.All(), d.c.dec), vs) {
 		vs = append(vs, "all-break!")
 	}
 	return fmt.Sprintf("%d h=%s t=%s n[%s] v[%s]", d.l.Len(), d.show(d.l.Front()), d.show(d.l.Back()), strings.Join(ids, " "), strings.Join(vs, " "))
 }
 
+// implS runs the case on SList[T] for the element type named by the header token `ty=…`.
 func implS(c core.Case) []string {
-	d := &sImpl{ids: map[*listz.SNode[int]]int{}}
+	switch tyOf(c) {
+	case "string":
+		return implST(c, strCodec)
+	case "float":
+		return implST(c, floatCodec)
+	case "slice":
+		return implST(c, sliceCodec)
+	case "any":
+		return implST(c, anyCodec)
+	case "unit":
+		return implST(c, unitCodec)
+	case "fstruct":
+		return implST(c, fstructCodec)
+	}
+	return implST(c, intCodec)
+}
+
+func implST[T any](c core.Case, cd codec[T]) []string {
+	d := &sImpl[T]{c: cd, ids: map[*listz.SNode[T]]int{}}
 	return core.RunOps(c,
 		func(hdr []string) string {
-			h := hdr[1:]
+			h := dropTy(hdr)[1:]
 			if len(h) > 0 && h[len(h)-1] == "big" {
 				d.big = true
 				h = h[:len(h)-1]
 			}
 			switch {
 			case len(h) == 0, len(h) == 1 && h[0] == "n":
-				d.l = listz.NewSingly[int]()
+				d.l = listz.NewSingly[T]()
 			case len(h) == 1 && h[0] == "z":
-				d.l = new(listz.SList[int]) // the zero value
+				d.l = new(listz.SList[T]) // the zero value
 			default:
 				return "bad-op"
 			}
@@ -164,10 +184,10 @@ func implS(c core.Case) []string {
 		})
 }
 
-var sArity = map[string]int{"new": 1, "get": 1, "rm": 1, "rmf": 0, "pf": 1, "pb": 1, "ins": 2, "pfn": 1, "pbn": 1, "insn": 2, "swap": 2, "len": 0, "front": 0, "back": 0, "next": 1}
+var sArity = map[string]int{"new": 1, "get": 1, "rm": 1, "rmf": 0, "pf": 1, "pb": 1, "ins": 2, "pfn": 1, "pbn": 1, "insn": 2, "swap": 2, "len": 0, "front": 0, "back": 0, "next": 1, "setv": 2}
 
 // wellFormed: a plain protocol line whose node handle (if any) exists now.
-func (d *sImpl) wellFormed(t []string) bool {
+func (d *sImpl[T]) wellFormed(t []string) bool {
 	if len(t) > 0 && strings.HasPrefix(t[0], "o.") {
 		t = append([]string{t[0][2:]}, t[1:]...)
 	}
@@ -180,7 +200,7 @@ func (d *sImpl) wellFormed(t []string) bool {
 		if err != nil || strings.HasPrefix(t[1+i], "+") {
 			return false
 		}
-		isHandle := (t[0] == "pfn" || t[0] == "pbn" || t[0] == "next") && i == 0 || t[0] == "insn" && i == 1
+		isHandle := (t[0] == "pfn" || t[0] == "pbn" || t[0] == "next" || t[0] == "setv") && i == 0 || t[0] == "insn" && i == 1
 		if isHandle && (x < 0 || x >= len(d.h)) {
 			return false
 		}
@@ -188,13 +208,13 @@ func (d *sImpl) wellFormed(t []string) bool {
 	return true
 }
 
-func (d *sImpl) step(t []string) string {
+func (d *sImpl[T]) step(t []string) string {
 	if len(t) == 0 {
 		return "bad-op"
 	}
 	if len(t) == 1 && t[0] == "flip" {
 		if d.l2 == nil {
-			d.l2 = new(listz.SList[int])
+			d.l2 = new(listz.SList[T])
 		}
 		d.l, d.l2 = d.l2, d.l
 		return "ok"
@@ -210,7 +230,7 @@ func (d *sImpl) step(t []string) string {
 		for i := 0; i < k; i++ {
 			switch t[0] {
 			case "pushn":
-				d.l.PushBack(i % 10)
+				d.l.PushBack(d.c.enc(i % 10))
 			case "removen":
 				d.l.RemoveFront()
 			default:
@@ -257,7 +277,7 @@ func (d *sImpl) step(t []string) string {
 					ys = append(ys, "!")
 					break
 				}
-				ys = append(ys, strconv.Itoa(v))
+				ys = append(ys, strconv.Itoa(d.c.dec(v)))
 				if !body() {
 					break
 				}
@@ -289,7 +309,7 @@ func (d *sImpl) step(t []string) string {
 		}
 		a[i] = x
 	}
-	node := func(h int) *listz.SNode[int] {
+	node := func(h int) *listz.SNode[T] {
 		if h < 0 || h >= len(d.h) {
 			return nil
 		}
@@ -297,7 +317,7 @@ func (d *sImpl) step(t []string) string {
 	}
 	switch t[0] {
 	case "new":
-		e := &listz.SNode[int]{Value: a[0]}
+		e := &listz.SNode[T]{Value: d.c.enc(a[0])}
 		d.reg(e)
 		return d.show(e)
 	case "get":
@@ -307,11 +327,11 @@ func (d *sImpl) step(t []string) string {
 	case "rmf":
 		return d.show(d.l.RemoveFront())
 	case "pf":
-		d.l.PushFront(a[0])
+		d.l.PushFront(d.c.enc(a[0]))
 	case "pb":
-		d.l.PushBack(a[0])
+		d.l.PushBack(d.c.enc(a[0]))
 	case "ins":
-		d.l.InsertAt(a[0], a[1])
+		d.l.InsertAt(a[0], d.c.enc(a[1]))
 	case "pfn":
 		e := node(a[0])
 		if e == nil {
@@ -332,6 +352,12 @@ func (d *sImpl) step(t []string) string {
 		d.l.InsertNodeAt(a[0], e)
 	case "swap":
 		d.l.Swap(a[0], a[1])
+	case "setv":
+		e := node(a[0])
+		if e == nil {
+			return "bad-op"
+		}
+		e.Value = d.c.enc(a[1]) // the caller owns Value; the list must not depend on it
 	case "len":
 		return strconv.Itoa(d.l.Len())
 	case "front":
@@ -362,7 +388,7 @@ func checkS(c core.Case, out []string) *core.Failure {
 		}
 		return strconv.Itoa(p)
 	}
-	hdr := core.Toks(c.Lines[0])
+	hdr := dropTy(core.Toks(c.Lines[0]))
 	big := len(hdr) > 3 && hdr[len(hdr)-1] == "big"
 	dump := func() string {
 		if big {
@@ -491,6 +517,18 @@ func checkS(c core.Case, out []string) *core.Failure {
 			if in(a[0]) && in(a[1]) && a[0] != a[1] {
 				s[a[0]].v, s[a[1]].v = s[a[1]].v, s[a[0]].v
 			}
+		case "setv":
+			if a[0] < 0 || a[0] >= next {
+				return "", false
+			}
+			vals[a[0]] = a[1]
+			for _, q := range [][]sCell{s, parked} {
+				for k := range q {
+					if q[k].id == a[0] {
+						q[k].v = a[1]
+					}
+				}
+			}
 		case "len":
 			res = strconv.Itoa(len(s))
 		case "front":
@@ -578,7 +616,7 @@ func checkS(c core.Case, out []string) *core.Failure {
 					if !ok || len(a) != 1+n {
 						return nil
 					}
-					hi := map[string]int{"pfn": 1, "pbn": 1, "next": 1, "insn": 2}[a[0]]
+					hi := map[string]int{"pfn": 1, "pbn": 1, "next": 1, "insn": 2, "setv": 1}[a[0]]
 					if hi > 0 {
 						if x, err := strconv.Atoi(a[hi]); err != nil || x < 0 || x >= next {
 							return nil
@@ -728,7 +766,7 @@ func genS(r *core.Rand, tier string) core.Case {
 	}
 	for len(lines) <= n {
 		v := r.Range(0, 9)
-		switch r.Pick(8, 10, 10, 6, 12, 5, 8, 3, 2, 2, 3, 3, 3) {
+		switch r.Pick(8, 10, 10, 6, 12, 5, 8, 3, 2, 2, 3, 3, 3, 3) {
 		case 0:
 			lines = append(lines, fmt.Sprintf("pf %d", v))
 			ids = insAt(ids, 0, next)
@@ -799,6 +837,15 @@ func genS(r *core.Rand, tier string) core.Case {
 				ids = insAt(ids, clamp(i), e)
 			}
 			length++
+		case 13: // the caller changes a node's Value through the handle
+			if next == 0 {
+				continue
+			}
+			e := r.Intn(next)
+			if length > 0 && r.Chance(70) {
+				e = ids[r.Intn(length)]
+			}
+			lines = append(lines, fmt.Sprintf("setv %d %d", e, v))
 		case 12: // range over the list while the body mutates it
 			lines = append(lines, sLoopLine(r, &ids, &det, &next, nil))
 			length = len(ids)
